@@ -633,7 +633,7 @@ class FreshClient(paths.Client):
         if node['k'] == 'CXXOperatorCallExpr' and node.get('oop') in ('-=', '+=', '=') and node['ch']:
             l = fn.strip(node['ch'][0])
             if l is not None and l['k'] == 'DeclRefExpr' and l.get('name') == self.iterate:
-                return frozenset()
+                return frozenset()          # residual, norm and every conclusion drawn from them are stale
         if short == 'function' and len(args(fn, node)) == 2:
             a = args(fn, node)
             if self.iterate in self.names(fn, a[0]) and self.resid in self.names(fn, a[1]):
@@ -643,14 +643,73 @@ class FreshClient(paths.Client):
             if l is not None and l.get('name') == self.normvar:
                 r = fn.strip(node['ch'][1])
                 if (r.get('callee') or '').endswith('squaredNorm') and self.resid in self.names(fn, r['id']) and 'f' in auto:
-                    return auto | {'norm'}
-                return auto - {'norm'}
+                    return (auto | {'norm'}) - {'conv', 'convneg'}
+                return auto - {'norm', 'conv', 'convneg'}
         if node['k'] == 'ReturnStmt' and node['ch']:
+            e = fn.strip(node['ch'][0])
             if self.normvar in self.names(fn, node['ch'][0]):
                 self.rets += 1
                 if 'norm' not in auto:
                     self.bad.append(('the returned verdict uses a residual norm that is stale with respect to the last update of %s'
                                      % self.iterate, ctx.path()))
+                small = self.small(fn, e)
+                if small is None:
+                    self.bad.append(('the returned verdict reads the residual norm in a form the rule does not recognise (expected norm < tolerance '
+                                     'or norm <= tolerance)', ctx.path()))
+                elif small is False:
+                    self.bad.append(('success is the *failure* of the test "norm exceeds the tolerance": an undefined (NaN) residual fails that '
+                                     'test too and is reported as converged', ctx.path()))
+            elif e is not None and e['k'] == 'CXXBoolLiteralExpr' and e.get('v') in (True, 'true', 1):
+                self.rets += 1
+                if 'conv' in auto and 'norm' in auto:
+                    pass
+                elif 'convneg' in auto:
+                    self.bad.append(('success is returned where all that is known is that the test "norm > tolerance" failed: an undefined (NaN) '
+                                     'residual fails that test too, so a state for which the constraint function is not defined is reported as '
+                                     'projected onto the manifold', ctx.path()))
+                else:
+                    self.bad.append(('success is returned on a path that never compared a fresh residual norm with the tolerance', ctx.path()))
+        return auto
+
+    def small(self, fn, e):
+        """True: e is 'norm below tolerance' (norm < T, norm <= T, T > norm, T >= norm); False: its negation spelled !(norm > T) ...; None: other"""
+        if e is None:
+            return None
+        if e['k'] == 'UnaryOperator' and e.get('op') == '!':
+            r = self.big(fn, fn.strip(e['ch'][0]))
+            return False if r else None
+        if e['k'] == 'BinaryOperator' and e.get('op') in ('<', '<=', '>', '>='):
+            l, r = self.names(fn, e['ch'][0]), self.names(fn, e['ch'][1])
+            if self.normvar in l and self.normvar not in r:
+                return True if e['op'] in ('<', '<=') else None
+            if self.normvar in r and self.normvar not in l:
+                return True if e['op'] in ('>', '>=') else None
+        return None
+
+    def big(self, fn, e):
+        if e is None or e['k'] != 'BinaryOperator' or e.get('op') not in ('<', '<=', '>', '>='):
+            return False
+        l, r = self.names(fn, e['ch'][0]), self.names(fn, e['ch'][1])
+        if self.normvar in l and self.normvar not in r:
+            return e['op'] in ('>', '>=')
+        if self.normvar in r and self.normvar not in l:
+            return e['op'] in ('<', '<=')
+        return False
+
+    def on_edge(self, fn, block, idx, auto, ctx):
+        c = block.get('cond')
+        if not c:
+            return auto
+        e = fn.strip(c)
+        if block.get('termk') != 'BinaryOperator':
+            while e is not None and e['k'] == 'BinaryOperator' and e.get('op') in ('&&', '||'):
+                e = fn.strip(e['ch'][1])
+        if e is None:
+            return auto
+        if self.small(fn, e) is True:
+            return (auto | {'conv'}) - {'convneg'} if idx == 0 else auto - {'conv', 'convneg'}
+        if self.big(fn, e):
+            return (auto | {'convneg'}) - {'conv'} if idx == 1 else auto - {'conv', 'convneg'}
         return auto
 
 
@@ -658,7 +717,9 @@ def r16f(rep, F):
     rep.rule('R16f', 'typestate over the CFG of Constraint::project(x) and AtlasChart::psi(u, out): an assignment to the iterate (x -= ..., '
                      'out -= ..., out = ...) makes the residual and its norm stale; function(iterate, residual) refreshes the residual; '
                      'norm = residual.squaredNorm() refreshes the norm only from a fresh residual; the returned comparison must read a '
-                     'fresh norm')
+                     'fresh norm.  Success is a *positive* comparison: the returned verdict is norm < tolerance (or <=), or, where a path returns '
+                     'true, the last thing learned about the fresh norm is that such a comparison held -- not merely that "norm > tolerance" '
+                     'failed, which an undefined (NaN) residual fails as well')
     for name, np_, iterate, resid in ((B + 'Constraint::project', 1, 'x', 'f'), (B + 'AtlasChart::psi', 2, 'out', 'b')):
         fs = [f for f in F.by_name.get(name, []) if f.body and len(f.params) == np_ and 'Eigen' in f.sig]
         if not fs:
@@ -669,7 +730,7 @@ def r16f(rep, F):
         cl = FreshClient(fn, iterate, resid, 'norm')
         paths.run_function(fn, cl, F)
         if cl.rets == 0:
-            raise AnalysisBroken('R16f: no return reading the residual norm in ' + name)
+            raise AnalysisBroken('R16f: no return deciding success in ' + name)
         rep.add('R16f', fn.name, 'verdict-from-fresh-residual', not cl.bad, fn.where(fn.nodes[fn.body]),
                 'norm is fresh at every return' if not cl.bad else cl.bad[0][0], cl.bad[0][1] if cl.bad else None)
 
